@@ -36,6 +36,19 @@ def _route(vals):
     return 1 if tot(vals) % 3 == 1 else 0
 
 
+def _valid_rows(l):
+    """rows of a valid Clifford map (Hermitian phases, canonical commutation relations): only then does transforming the identity reproduce them"""
+    n2 = len(l)
+    if any(int(a[1]) % 2 for a in l):
+        return False
+    for i in range(n2):
+        for j in range(n2):
+            acq = sum(int(l[i][0][2 * q + 1]) * int(l[j][0][2 * q]) - int(l[i][0][2 * q]) * int(l[j][0][2 * q + 1]) for q in range(n2 // 2)) % 2
+            if acq != (1 if (i // 2 == j // 2 and i != j) else 0):
+                return False
+    return True
+
+
 def _pstr(a):
     return {0: '', 1: 'i', 2: '-', 3: '-i'}[int(a[1]) % 4] + ''.join('IXZY'[int(x) + 2 * int(z)] for x, z in zip(a[0][0::2], a[0][1::2]))
 
@@ -53,6 +66,14 @@ def PL(l, width=0):
 
 
 def CM(l):
+    if len(l) >= 2 and len(l) % 2 == 0 and len(l[0][0]) == len(l) and _route(l) == 1 and _valid_rows(l):
+        ROUTES[0] = False
+        try:
+            m = ST.identity_map(len(l) // 2)
+            m.transform_by(CM(l))
+        finally:
+            ROUTES[0] = True
+        return _reg(m, 'PL', [[[int(v) for v in a[0]], int(a[1])] for a in l])
     return _reg(ST.CliffordMap(GS([a[0] for a in l]), PS([a[1] for a in l])), 'PL', [[[int(v) for v in a[0]], int(a[1])] for a in l])
 
 
@@ -244,7 +265,7 @@ def _(big, small, m):
     h, r = oPL(host), (oPL(ret) if ret is not None else None)
     return h if r == h else ['host', h, 'returned', r]
 @op('rotation_map')
-def _(gen): return oPL(ST.clifford_rotation_map(P(gen)))
+def _(gen): return oPL(ST.clifford_rotation_map(GEN(gen, text_ok=True)))
 @op('map_to_state')
 def _(m):
     c = RCV(CM(m))
@@ -329,6 +350,13 @@ def _(l): return [iv(v) for v in PL(l).weight()]
 
 
 # ---------------------------------------------------------------- circuits (torchclifford has CliffordGate / CliffordLayer / CliffordCircuit; no named gates, no Circuit with measurements)
+def GEN(a, text_ok=False):
+    """a rotation generator as the Pauli object or -- where the callee parses its argument -- as its printed text (the port has no monomials)"""
+    if text_ok and len(a[0]) >= 2 and (sum(int(b) for b in a[0]) + 2 * int(a[1]) + len(a[0])) % 2 == 1:
+        return _pstr(a)
+    return P(a)
+
+
 def _ctor_route(qs, gen_):
     """a rotation gate is as often built by the library's own constructor as by hand: when the generator is non-trivial on every declared qubit (so that its support IS the
     declared qubits, in ascending order) a third of the gates go through clifford_rotation_gate(full-width generator) and a third through
@@ -344,7 +372,7 @@ def _ctor_route(qs, gen_):
         full = [0] * (2 * W)
         for i, q in enumerate(qs):
             full[2 * q], full[2 * q + 1] = int(g[2 * i]), int(g[2 * i + 1])
-        return CI.clifford_rotation_gate(P([full, p]))
+        return CI.clifford_rotation_gate(GEN([full, p], text_ok=True))
     if route == 1:
         import numpy as _np
         return CI.clifford_rotation_gate(P([list(g), p]), _np.array(qs))
